@@ -17,7 +17,8 @@ RULE = ("Hypothesis draws logical contents (C01 generator: 17 data types incl. t
         "segment, each is read eagerly and lazily (raw and converted timestamps) and compared with the model, hence with "
         "each other. Non-trivial: content with >=1 multi-byte value or property; distinct by SHA-1 of the case."
         ' With a drawn cut inside the last segment, the truncated big-endian and mixed encodings must deliver what the '
-        'truncated little-endian encoding delivers (per access mode).')
+        'truncated little-endian encoding delivers (per access mode).'
+        ' Every chunk object of the lazy stream is read three times.')
 ASSUMPTIONS = [
     "vf/encode.py writes big-endian segments per the NI layout: ToC mask always little-endian, every other field, "
     "property and raw value in segment byte order, timestamps as (i64 seconds, u64 fractions) when big-endian, complex "
